@@ -113,7 +113,9 @@ func (c CodecProto) ReadNext(b []byte, r io.Reader, limit int) ([]byte, int, err
 			}
 			n, err := r.Read(b[len(b):cap(b)])
 			b = b[:len(b)+n]
-			if err != nil {
+			if err != nil && (n == 0 || err != io.EOF) {
+				// Data read together with io.EOF is used first, the
+				// next Read reports the io.EOF again.
 				return b, 0, err
 			}
 		}
@@ -210,7 +212,9 @@ func (c CodecJSON) ReadNext(b []byte, r io.Reader, limit int) ([]byte, int, erro
 			}
 			n, err := r.Read(b[len(b):cap(b)])
 			b = b[:len(b)+n]
-			if err != nil {
+			if err != nil && (n == 0 || err != io.EOF) {
+				// Data read together with io.EOF is used first, the
+				// next Read reports the io.EOF again.
 				return b, 0, err
 			}
 		}
